@@ -70,7 +70,12 @@ class C03(Spec):
             "ticker access, a time line with at least one fire, a pure line that does not panic")
     trusted_base = ["harness/csched (controlled scheduler) and the verifYield hook sites of loom/verif_on.go",
                     "Go runtime faketime clock (GOMAXPROCS=1): time.Ticker delivers tick j at j*step",
-                    "one transition = one sync/atomic access or the close (sequentially consistent)"]
+                    "one transition = one sync/atomic access or the close (sequentially consistent)",
+                    "translator tie (race part): tools/srcfacts/minigo_atomic.go (go/ast + go/types -> AtomicIR programs of "
+                    "fetchWheelData and onTicker, regenerated every run into Got/Generated/AstLoomWheel.lean; Go ints as unbounded "
+                    "integers; NewWheel, goLoop and WheelTimer.Reset's interval choice are not translated) and the AtomicIR semantics "
+                    "(Got/Model/AtomicIR.lean); the generated LTS is replayed on every race line of the correspondence (driver mode "
+                    "`ast`) and must print what the real code printed (ast_interpreter_mismatches)"]
     assumptions = ["onTicker is called by one goroutine only (goLoop)",
                    "the wheel's ticker is not late: tick j happens at j*step (the property is stated on the wheel's own tick clock)",
                    "step * buckets does not overflow int64"]
@@ -261,6 +266,11 @@ class C03(Spec):
         return None
 
     # ------------------------------------------------------------------ non-triviality
+    def extra(self, ctx):
+        from .c01 import translator_extra
+        translator_extra(self, ctx, gen_file="AstLoomWheel.lean", notes=("fetchWheelDataNote", "onTickerNote"),
+                         what="loom.Wheel.fetchWheelData/onTicker", skip=lambda script, impl: not script.startswith("race "))
+
     def nontrivial(self, script, impl):
         w = script.split(None, 1)[0]
         if w == "race":
